@@ -11,13 +11,21 @@ SPEC = {
                   ('.', 'harness/root/zz_verif_c13_test.go')],
         'model_module': 'Model.C13_Listing', 'imports': ['From Wesh Require Import Model.MetaLog.'],
         'shard': 500, 'timeout': 1500,
+    }, {
+        'name': 'rpc', 'pkg': '.', 'test': 'TestVerifC13RPC',
+        'files': [('.', 'harness/root/zz_verif_meta_common_test.go'),
+                  ('.', 'harness/root/zz_verif_c04_test.go'),
+                  ('.', 'harness/root/zz_verif_c13_test.go'),
+                  ('.', 'harness/root/zz_verif_c13rpc_test.go')],
+        'model_module': 'Model.C13_Listing', 'imports': ['From Wesh Require Import Model.MetaLog.'],
+        'shard': 500, 'timeout': 1500,
     }],
     'rule': 'logs of 0..12 entries (each length 4 times, alternately metadata store and message store of a multi-member group) written by two '
             'devices with random one-way synchronisations (concurrent entries); listed through MetadataStore.ListEvents / '
             'MessageStore.ListEvents on both writers as they are and on fresh replicas that received the union in one batch, in one '
             'batch then reopened, entry by entry in random order, and mixed; since and until range over nil, every entry and an '
             'unknown identifier, reverse over both values - exhaustively up to 5 entries and in the thorough tier, a 40% sample '
-            'above; plus all 32 argument combinations of checkParametersConsistency; non-trivial = log of >= 2 entries with a '
+            'above; plus all 32 argument combinations of checkParametersConsistency; RPC stream: GroupMetadataList and GroupMessageList of a real service (in-process, stub stream) on 6 (60) groups of 1-5 messages and metadata events each, for every (since_id, until_id or until_now, reverse_order) incl. unknown identifiers (1/3 sample above 6 entries), the stream being closed by the client once the expected events (plus a grace period) were seen; non-trivial = log of >= 2 entries with a '
             'bound or reverse; distinct = history x replica x (since, until, reverse)',
     'trusted_base': [
         'Coq 8.16.1 kernel; vm_compute for evaluating the model on cases',
@@ -25,7 +33,7 @@ SPEC = {
         'development, the C13 theorems themselves are closed)',
         'harness/root/zz_verif_c13_test.go, harness/root/zz_verif_meta_common_test.go',
         'modelled, not verified: go-ipfs-log/go-orbit-db (replication, entry map), opening of entries (an entry that does not open is '
-        'skipped by the listing; all entries of the harness open), the streaming layer of the GroupMetadataList/GroupMessageList RPCs',
+        'skipped by the listing; all entries of the harness open), the gRPC transport of the GroupMetadataList/GroupMessageList RPCs (called in-process)',
     ],
     'assumptions': ['identifiers are content hashes: distinct entries have distinct identifiers'],
 }
